@@ -1251,7 +1251,6 @@ CH_OPS_QUICK = [
 ]
 CH_OPS_THOROUGH = CH_OPS_QUICK + [["extend", ["Y"]], ["insert", 1, "X"], ["remove", 1], ["pop", 0], ["flags", 1, "blanket"], ["flux", 0, 0.0], ["bu", 0, 12.0], ["setitem", 0, "X"], ["delitem", 0], ["clear"]]
 CH_REPS = ["Median", "Average", "AverageByComponent", "ComponentAverage1DCylinder", "FluxWeightedAverage"]
-CH_CATEGORY = {"append": "membership", "extend": "membership", "iadd": "membership", "insert": "membership", "remove": "membership", "pop": "membership", "setitem": "membership", "delitem": "membership", "clear": "membership", "flags": "member-state", "bu": "member-state", "flux": "member-state", "T": "member-state", "wparam": "attribute", "vtypes": "attribute"}
 
 
 def _ch_outcome(bc, rep):
@@ -1283,7 +1282,6 @@ def _eval_chist(pool, case):
     saved_T = {}
     bc = make_collection(pool, rep, filt, [blk["m0"], blk["m1"]])
     nreq = 0
-    tag = {"Median": "median", "ComponentAverage1DCylinder": "cyl"}.get(rep, "avg")
 
     def request(step):
         nonlocal nreq
@@ -1310,11 +1308,9 @@ def _eval_chist(pool, case):
                 if d:
                     what, det = "representative", "median copy differs from the fresh collection's: %s" % d
         if what:
-            last = [o[0] for o in case["ops"][: step + 1] if o[0] != "rep"]
-            cat = CH_CATEGORY[last[-1]] if last else "none"
             vs.append(
                 core.viol(
-                    "c20/collection-reuse-differs-from-fresh/%s/after-%s-change/%s" % (tag, cat, what),
+                    "c20/collection-reuse-differs-from-fresh/" + what,
                     "one %s collection (filter %s) first holding [m0, m1], request #%d after %s: %s is %s" % (rep, filt, nreq, case["ops"][: step + 1], what, det),
                     {"kind": "chist", "rep": rep, "filter": filt, "ops": [list(o) for o in case["ops"][: step + 1]]},
                 )
